@@ -7,6 +7,15 @@ PROPERTY = "C12"
 LEVEL = "model_checking"
 
 
+class AwaitableResult:
+    def __init__(self, inner):
+        self.inner = inner
+
+    def __await__(self):
+        return self.inner
+        yield
+
+
 def make_class(W, with_lock, gsusp, state, lock_susp=0):
     locks = []
 
@@ -28,6 +37,8 @@ def make_class(W, with_lock, gsusp, state, lock_susp=0):
                 state["fail_next"] = False
                 raise Fault("getter failed")
             val = ("value", self.name, run)
+            if P("aw_value", False):
+                val = AwaitableResult(val)  # the getter's value may itself be awaitable
             state["returned"].append(val)
             return val
         finally:
@@ -59,7 +70,7 @@ async def _await(x):
 
 
 # ---- sequential histories ------------------------------------------------------------------
-OPS = ("await", "take-placeholder", "await-placeholder", "del", "fail-next", "await-other-instance", "placeholder-of-dropped-instance")
+OPS = ("await", "take-placeholder", "await-placeholder", "del", "fail-next", "await-other-instance", "placeholder-of-dropped-instance", "three-times-del-then-await-the-same-placeholder")
 
 
 def _pre_hist(o0, o1, o2, o3, o4, o5, with_lock):
@@ -150,6 +161,19 @@ def h_hist(o0: int, o1: int, o2: int, o3: int, o4: int, o5: int, with_lock: bool
             state["fail_next"] = True
         elif op == 5:
             expect_await(r1, "r1", r1.data)
+        elif op == 7:
+            # one placeholder object survives any number of deletions
+            if placeholders and placeholders[-1][1] is None:
+                obj = placeholders[-1][0]
+                for _rep in range(3):
+                    try:
+                        del r0.data
+                    except AttributeError:
+                        pass
+                    cached["r0"] = None
+                    expect_await(r0, "r0", obj)
+                    if not ok:
+                        break
         else:
             # the placeholder keeps working when it is the only thing left of its instance
             import gc
@@ -289,7 +313,7 @@ def _grid():
 
 GRID = {
     "h_conc": _grid,
-    "h_hist": lambda: [(a, b, c, d, 0, 0, w) for a in range(7) for b in range(7) for c in range(7) for d in (0, 2, 3) for w in (False, True) if P("o0") in (None, a)],
+    "h_hist": lambda: [(a, b, c, d, 0, 0, w) for a in range(8) for b in range(8) for c in range(8) for d in (0, 2, 3) for w in (False, True) if P("o0") in (None, a)],
 }
 
 
@@ -301,8 +325,9 @@ def jobs(tier):
     def add(fn, **part):
         J.append({"module": "c12", "fn": fn, "part": part, "timeout": T})
 
-    for o0 in range(7):
+    for o0 in range(8):
         add("h_hist", L=(4 if q else 5), o0=o0)
+    add("h_hist", L=3, aw_value=True)
     add("h_hist", L=3, falsy=True)
     for lock in (True, False):
         add("h_conc", T=2, GSUSP=1, lock=lock)
